@@ -35,20 +35,49 @@ def run(ctx):
     quick = ctx.tier == "quick"
     rng = random.Random(ctx.seed * 7919 + 13)
     F = ("fail", "nan", "inf")
-    mc = [("3 params x 1 factor, freq 1, tol 1, all fault kinds, 4 calls", [G([1, 2, 3], [1, 1, 1])], 4, F, ()),
+    mc = [("3 params x 1 factor, freq 1, tol 1, fail/NaN, 4 calls", [G([1, 2, 3], [1, 1, 1])], 4, ("fail", "nan"), ()),
           ("2 blocks (2,1 factors), freq 2, tol 1, 7 calls", [G([1, 2], [2, 1], freq=2, start=2)], 7, F, ()),
           ("2 params, tol 0, 5 calls", [G([1, 2], [1, 1], tol=0)], 5, F, ()),
           ("SOAP, 2 blocks x 2 factors, tol 2, 4 calls", [G([1, 2], [2, 2], kind="soap", tol=2)], 4, ("fail", "nan"), ())]
     if not quick:
-        mc += [("3 params x 1 factor, tol 1, 5 calls", [G([1, 2, 3], [1, 1, 1])], 5, F, ()),
+        mc += [("3 params x 1 factor, tol 1, all fault kinds, 4 calls", [G([1, 2, 3], [1, 1, 1])], 4, F, ()),
+               ("3 params x 1 factor, tol 1, 5 calls", [G([1, 2, 3], [1, 1, 1])], 5, F, ()),
                ("3 params, tol 2, 6 calls, fail only", [G([1, 2, 3], [1, 1, 1], tol=2)], 6, ("fail",), ()),
                ("2 groups, tol 0/1, 4 calls", [G([1, 2], [1, 1], tol=0), G([1], [2], tol=1)], 4, ("fail", "nan"), ()),
                ("blocked param (2 blocks) + param, freq 2 start 3, 7 calls", [G([1, 1, 2], [1, 1, 1], freq=2, start=3)], 7, ("fail",), ())]
     wit = [("counter lost on re-mask", [G([1, 2, 3], [1, 1, 1])], 5, ("fail",), (), ("CounterLostOnRemask",))]
     sp.run_mc(ctx, mc, wit)
     tasks = sp.gen_tasks(ctx, rng, 10 if quick else 60, 14 if quick else 40, make_groups, 8, F, ())
+    # tolerated failures only (no halting outcome), every step a refresh: long alternations of fail / ok / absent
+    tasks += sp.gen_tasks(ctx, rng, 8 if quick else 60, 30 if quick else 60,
+                          lambda r: [family.draw_group(r, r.choice(["m3p", "v2x3", "m2x3"]), kind=r.choice(["shampoo", "soap"]), freq=1, start=1,
+                                                       tol=r.choice([1, 1, 2]), method=None)],
+                          10, ("fail",), (), numeric=False)
     sp.run_rt(ctx, tasks, owns, "failure_tolerance")
-    sp.run_histories(ctx, rng, 24 if quick else 300, make_groups, 30 if quick else 50, ("fail", "nan"), (), owns, "failure_tolerance_long")
+    sp.run_histories(ctx, rng, 24 if quick else 300, make_groups, 30 if quick else 50, ("fail",), (), owns, "failure_tolerance_long")
+    sp.run_histories(ctx, rng, 8 if quick else 100, make_groups, 12, ("fail", "nan"), (), owns, "failure_tolerance_long")
+    # reduced-precision parameters: the computed root must be finite IN THE STORED DTYPE (natural overflow is the outcome "nan")
+    lp = []
+    for _ in range(12 if quick else 150):
+        g = family.draw_group(rng, rng.choice(["v2x3", "fuse", "s0v", "m2x2"]), kind="shampoo", method="eigen", freq=1, start=1, tol=rng.choice([0, 1, 3]))
+        g["eps"] = rng.choice([1e-12, 1e-10, 1e-3])
+        g["override"] = rng.choice([0, 1, 2])
+        g["beta2"] = 1.0
+        d = family.make_draw(rng, [g], dtype=rng.choice(["float16", "float16", "bfloat16"]), pdtype="float32")
+        ab = sp.abstract_of(d)
+        lp.append((d, sp.random_history(rng, d, ab, 6, (), ())))
+    res = sp.pool_map(sp.history_task, lp)
+    from harness import behaviours
+    traces = [tr for (_, tr, err) in res]
+    idx = [i for i, tr in enumerate(traces) if tr is not None]
+    vals = behaviours.validate([traces[i] for i in idx]) if idx else []
+    validated = [None] * len(lp)
+    for i, v in zip(idx, vals):
+        validated[i] = v
+    sp.collect(ctx, [(d, ev, None) for d, ev in lp], res, validated, owns, "failure_tolerance_low_precision")
+    ctx.add("traces_validated_against_impl", len(idx))
+    ctx.put("natural_nonfinite_outcomes", sum(1 for tr in traces if tr for e in tr["events"] if e["ev"] == "Step"
+                                               for go in e["outc"] for oc in go for f in oc["f"] if f == "nan"))
     ctx.put("distinct_nontrivial", sp.nontrivial_count(tasks))
     ctx.put("rule", "MC: every script of {ok, fail, NaN result, non-finite gradient} per factor and refresh x every gradient-presence "
                     "history x tolerance 0..2 x frequency 1..2 within the call bounds (ghost run-length vs. the counters as coded: "
